@@ -24,7 +24,8 @@ CONSTANTS Schema,    \* e.g. <<"int", "bigint", "varchar", "boolean">>: column c
           Src,       \* -src-cols: 0-based CSV field indexes
           Dst,       \* -dest-cols, as positions in Schema: CSV field Src[i] goes to column Dst[i]
           NFields,   \* number of fields of an ordinary record of this file
-          Wide       \* TRUE: every class at every mapped position; FALSE: one representative each
+          Wide,      \* TRUE: every class at every mapped position; FALSE: one representative each
+          Only       \* class names the generator may use (to go deep with a small alphabet)
 
 ASSUME /\ Len(Src) = Len(Dst) /\ Len(Src) >= 1
        /\ \A i, j \in 1..Len(Src) : i # j => (Src[i] # Src[j] /\ Dst[i] # Dst[j])
@@ -154,7 +155,7 @@ FirstOfType(i) == \A j \in M : (j < i) => TypeAt(j) # TypeAt(i)
 At(P) == IF Wide THEN P ELSE {i \in P : FirstOfType(i)}
 Rec(c, a, v) == [cls |-> c, at |-> a, var |-> v]
 
-Classes ==
+AllClasses ==
   {Rec("valid", 0, v) : v \in (IF Wide THEN 0..2 ELSE {0})}
   \cup {Rec("null", i, 0) : i \in At(M)}
   \cup {Rec("allnull", 0, 0)}
@@ -164,6 +165,9 @@ Classes ==
   \cup {Rec("range", i, v) : i \in At({i \in M : TypeAt(i) = "int"}), v \in (IF Wide THEN 0..3 ELSE {0, 3})}
   \cup {Rec("extra", 0, v) : v \in (IF Wide THEN 1..2 ELSE {1})}
   \cup {Rec("empty", i, 0) : i \in At(M)}
+
+Classes == {r \in AllClasses : r.cls \in Only}
+ClassNames == {"valid", "null", "allnull", "malformed", "short", "badnum", "range", "extra", "empty"}
 
 CsvNext == \E r \in Classes : Record(Build(r, pos + 1))
 =============================================================================
